@@ -26,7 +26,7 @@ from ..simutil import IO_OFF, exc_msg, exc_sig, norm_state, seed_all
 
 ID = "C20"
 WORKERS = {"quick": 8, "thorough": 16}
-SHRINK_KEY = ["tweaks", "acts"]
+SHRINK_KEY = ["tweaks", "acts", "episodes"]
 RULE = (
     "case = one scenario (a shipped YAML file; one episode of a shipped episode-schedule folder; or a generated "
     "scenario = gen_scenario spec + a list of tweaks, each a documented key written into the dict) plus a "
@@ -99,15 +99,26 @@ def _load_yaml(path: str):
     return copy.deepcopy(_YAML_CACHE[path])
 
 
+def folder_root(folder: str) -> str:
+    """'name' or 'pkg:name' -> package data folder; 'tests:name' -> tests/assets/configs/name; an absolute path as is."""
+    if os.path.isabs(folder):
+        return folder
+    if folder.startswith("tests:"):
+        return os.path.join(REPO_TESTS, folder[6:])
+    return os.path.join(pkg_dir(), folder[4:] if folder.startswith("pkg:") else folder)
+
+
 def schedule_len(folder: str) -> int:
-    return len(_load_yaml(os.path.join(pkg_dir(), folder, "schedule.yaml"))["schedule"])
+    with open(os.path.join(folder_root(folder), "schedule.yaml")) as f:
+        return len(yaml.safe_load(f)["schedule"])
 
 
 def compose_episode(folder: str, episode: int) -> Dict:
     """Independent composition of an episode (docs/source/varying_config_files.rst): the variation files listed for
     the episode provide the anchors, the base scenario refers to them by alias. Episodes past the end wrap around."""
-    root = os.path.join(pkg_dir(), folder)
-    sched = _load_yaml(os.path.join(root, "schedule.yaml"))
+    root = folder_root(folder)
+    with open(os.path.join(root, "schedule.yaml")) as f:
+        sched = yaml.safe_load(f)
     table = sched["schedule"]
     names = table[episode % len(table)]
     text = ""
@@ -164,7 +175,7 @@ def build_schedule_episode(folder: str, episode: int):
     from primaite.game.game import PrimaiteGame
     from primaite.session.episode_schedule import build_scheduler
 
-    sched = build_scheduler(os.path.join(pkg_dir(), folder))
+    sched = build_scheduler(folder_root(folder))
     d = sched(episode)
     d["io_settings"] = dict(IO_OFF)
     _prepare(d)
@@ -467,7 +478,80 @@ def oracle_b(cfg: Dict, case: Dict, res: CaseResult) -> None:
 # ---------------------------------------------------------------------------------------------------------------------
 
 
+SCHED_FOLDERS = ["pkg:mini_scenario_with_simulation_variation", "pkg:scenario_with_placeholders",
+                 "tests:scenario_with_placeholders", "pkg:uc7_multiple_attack_variants"]
+
+
+def run_sched_case(case: Dict) -> CaseResult:
+    """Episode-scheduled mode of Oracle A. case: folders = list of folder descriptors ('pkg:..' / 'tests:..' /
+    {'gen': spec, 'n': n_variants}), episodes = list of episode numbers walked IN ORDER. One scheduler instance per
+    folder, taken the way PrimaiteGymEnv takes it (build_scheduler(path)); for every episode and every folder the game
+    is built from the scheduler's return value ITSELF (as the environment does) and compared with the expectation
+    derived from this module's own join of the episode's files."""
+    import shutil
+
+    from primaite.game.game import PrimaiteGame
+    from primaite.session.episode_schedule import build_scheduler
+
+    from ..envdrive import make_sched_folder
+
+    res = CaseResult()
+    res.label("src:schedrun")
+    roots, temp = [], []
+    for fd in case["folders"]:
+        if isinstance(fd, dict):
+            root, _meta = make_sched_folder(fd["gen"], fd.get("n", 2))
+            temp.append(root)
+            res.label("schedrun:generated-folder")
+        else:
+            root = folder_root(fd)
+            res.label("schedrun:shipped-folder")
+        roots.append(root)
+    if len(roots) > 1:
+        res.label("schedrun:two-schedulers")
+    try:
+        scheds = [build_scheduler(r) for r in roots]
+        seen_combo: set = set()
+        nontriv = []
+        for ep in case["episodes"]:
+            for k, (root, sched) in enumerate(zip(roots, scheds)):
+                with open(os.path.join(root, "schedule.yaml")) as f:
+                    table = yaml.safe_load(f)["schedule"]
+                combo = tuple(table[ep % len(table)])
+                repeat = combo in seen_combo  # this combination of file NAMES was used before (by any scheduler)
+                seen_combo.add(combo)
+                expected_cfg = compose_episode(root, ep)
+                inv = ref_config.derive(expected_cfg)
+                if ref_config.nontrivial(expected_cfg)[0]:
+                    nontriv.append(jhash(expected_cfg))
+                sub = CaseResult()
+                where = f"folder#{k} {'generated' if root in temp else os.path.basename(root)} episode {ep}"
+                try:
+                    d = sched(ep)
+                    _prepare(d)
+                    game = PrimaiteGame.from_config(d)
+                except Exception as e:
+                    sub.violate(f"raise:load:{exc_sig(e)}", f"loading the episode raised {exc_msg(e)}")
+                else:
+                    compare(inv, c20_read.read(game), sub)
+                res.label("schedrun:episode-build")
+                if repeat:
+                    res.label("schedrun:repeated-combination")
+                for sig, msg in sub.violations:
+                    res.violate(("sched-repeat:" if repeat else "sched:") + sig, f"{where}"
+                                f"{' (file combination used before)' if repeat else ''}: {msg}")
+        res.nontrivial = jhash(sorted(set(nontriv))) if nontriv else False
+        if nontriv:
+            res.label("nontrivial")
+    finally:
+        for t in temp:
+            shutil.rmtree(t, ignore_errors=True)
+    return res
+
+
 def run_case(case: Dict) -> CaseResult:
+    if case["src"] == "schedrun":
+        return run_sched_case(case)
     res = CaseResult()
     cfg = case_cfg(case)
     inv = ref_config.derive(cfg)
@@ -541,6 +625,22 @@ def gen_case(draw, steps: int):
             "after": draw(st.booleans())}
 
 
+@st.composite
+def gen_sched_case(draw):
+    """A generated scenario (router / firewall families included) written as an episode-scheduled folder, optionally a
+    second one beside it (equal file names), walked for 2*len+2 episodes."""
+    def one():
+        spec = draw(gen_scenario.spec_strategy(families=("ROUTED", "DMZ", "LAN")))
+        spec["agents"]["green"] = draw(st.integers(1, 2))
+        return {"gen": spec, "n": draw(st.integers(1, 3))}
+
+    folders = [one()]
+    if draw(st.booleans()):
+        folders.append(one())
+    n = max(f["n"] for f in folders)
+    return {"src": "schedrun", "folders": folders, "episodes": list(range(2 * n + 2))}
+
+
 def shipped_b_case(files: List[str], steps: int):
     return st.fixed_dictionaries({"src": st.just("shipped"), "file": st.sampled_from(files),
                                   "perm": st.one_of(st.none(), st.integers(0, 2**31)), "scope": scope_strategy(),
@@ -587,10 +687,22 @@ def worker(ctx: Ctx):
                                 "aliases": bool(i % 2)}})
     for f in files:
         cases.append({"src": "shipped", "file": f, "after": True})
-    for folder in SCHEDULE_DIRS:
-        n = schedule_len(folder)
-        for ep in range(n + 2):
-            cases.append({"src": "schedule", "folder": folder, "episode": ep})
+    # episode-scheduled mode: one scheduler instance per folder, episodes 0 .. 2*len+1 in order (UC7: 20 episodes of a
+    # 2.7k-line scenario -> the quick tier walks 0..4, which already repeats TAP001_PC1, plus the wrap-around pair)
+    for fd in SCHED_FOLDERS:
+        n = schedule_len(fd)
+        eps = list(range(2 * n + 2))
+        if "uc7" in fd and quick:
+            eps = [0, 1, 2, 3, 4]
+        cases.append({"src": "schedrun", "folders": [fd], "episodes": eps})
+    # two scheduler instances in one process over folders whose files have the same names
+    cases.append({"src": "schedrun", "folders": ["pkg:scenario_with_placeholders", "tests:scenario_with_placeholders"],
+                  "episodes": list(range(6))})
+    for fam_a, fam_b in (("ROUTED", "DMZ"), ("DMZ", "ROUTED")):
+        cases.append({"src": "schedrun", "episodes": list(range(5)),
+                      "folders": [{"gen": c20_gen.base_spec(fam_a), "n": 2}, {"gen": c20_gen.base_spec(fam_b), "n": 2}]})
+    for fam in ("LAN", "ROUTED", "DMZ"):
+        cases.append({"src": "schedrun", "episodes": list(range(2 * 2 + 2)), "folders": [{"gen": c20_gen.base_spec(fam), "n": 2}]})
     # every tweak of the fixed alphabet, alone, on one rich scenario of each family (Oracle A; thorough: + Oracle B)
     for fam in ("LAN", "ROUTED", "DMZ"):
         spec = c20_gen.base_spec(fam)
@@ -617,6 +729,7 @@ def worker(ctx: Ctx):
     steps = 6 if quick else 10
 
     hyp_run(ctx, gen_case(steps).map(lambda c: _exclude(ctx, c)), run_case, n_gen, sub=1)
+    hyp_run(ctx, gen_sched_case(), run_case, 2 if quick else 25, sub=3)
     # 3. further re-serialisations of the shipped files
     small = [f for f in files if "uc7" not in f and not any(k in f for k in SLOW_FILES)]
     hyp_run(ctx, shipped_b_case(small if quick else [f for f in files if not any(k in f for k in SLOW_FILES)],
